@@ -75,7 +75,11 @@ def instances(tier, seed):
             n += 1
             # some or all connections arrive through an attached source listener (IngressListener) instead of IngressConn
             via = rnd.choice([[], [], [K], list(range(1, K + 1)), [1]])
-            out.append(dict(id="e%d" % n, K=K, M=M, C=C, cancel=cancel, order=o, via=via, settle=rnd.choice([150, 400]), seed=seed))
+            # unusual items: a live connection ingressed together with an error, or an error without any connection
+            errs = {}
+            if not via and rnd.random() < 0.3:
+                errs[str(rnd.randint(1, K))] = rnd.choice(["connErr", "nilErr"])
+            out.append(dict(id="e%d" % n, K=K, M=M, C=C, cancel=cancel, order=o, via=via, errs=errs, settle=rnd.choice([150, 400]), seed=seed))
     # randomised stress: no settling, many small instances
     reps = 600 if tier == "quick" else 8000
     for r in range(reps):
@@ -93,7 +97,8 @@ def instances(tier, seed):
             norm.append("%s%d" % (x[0], cnt[x[0]]))
         n += 1
         via = [i for i in range(1, K + 1) if rnd.random() < 0.35]
-        out.append(dict(id="s%d" % n, K=K, M=M, C=C, cancel=cancel, order=norm, via=via, settle=rnd.choice([0, 0, 0, 20, 60]), seed=seed))
+        errs = {str(i): rnd.choice(["connErr", "nilErr"]) for i in range(1, K + 1) if i not in via and rnd.random() < 0.15}
+        out.append(dict(id="s%d" % n, K=K, M=M, C=C, cancel=cancel, order=norm, via=via, errs=errs, settle=rnd.choice([0, 0, 0, 20, 60]), seed=seed))
     return out
 
 
@@ -225,7 +230,8 @@ def _check(prop, tier, seed, replay, scr, t0):
         reported += 1
 
     # explanation by the model (drift only): a subset in the quick tier
-    expl = [i for i in insts if i["K"] <= 3 and i["M"] <= 3 and i["C"] <= 2]
+    # (instances with unusual items are judged by the monitor only: Mux.tla models items that carry a connection and no error)
+    expl = [i for i in insts if i["K"] <= 3 and i["M"] <= 3 and i["C"] <= 2 and not i.get("errs")]
     limit = 350 if tier == "quick" else 3000
     expl_ids = set(i["id"] for i in expl[:limit]) - set(bad.keys())
     explained, unexplained, est = 0, [], (0, 0)
